@@ -11,6 +11,8 @@ import (
 	"strings"
 )
 
+func jsonMarshal(v any) ([]byte, error) { return json.Marshal(v) }
+
 func usage() {
 	fmt.Fprintln(os.Stderr, "usage: rverif drive|replay|... [flags]")
 	os.Exit(2)
@@ -60,7 +62,13 @@ func cmdDrive(args []string) {
 	only := fs.Int("only", 0, "produce only this trace id (confirm mode)")
 	maxAtoms := fs.Int("maxatoms", 40, "atom cap")
 	bits := fs.Int("bits", 32, "universe width: 32 | 64")
+	mk := fs.Int("minkeys", 1, "minimum number of chunk keys of the random universes")
+	cowBias := fs.Bool("cow", false, "build most bitmaps with copy-on-write recipes")
 	fs.Parse(args)
+	minKeys = *mk
+	if *cowBias {
+		recipes = append(recipes, "Rc", "Rk", "Mc", "Mk", "Rok", "Rc", "Rk", "Mk", "Rok", "Rck", "ak", "Ak", "Rc", "Rk")
+	}
 	f, err := os.Create(*out)
 	if err != nil {
 		panic(err)
@@ -77,6 +85,8 @@ func cmdDrive(args []string) {
 		var gens []iset
 		if *bits == 64 {
 			u, gens = randUniverse64(r, *maxAtoms)
+		} else if r.Intn(2) == 0 {
+			u, gens = edgeUniverse32(r, *maxAtoms)
 		} else {
 			u, gens = randUniverse32(r, *maxAtoms)
 		}
@@ -178,6 +188,7 @@ func cmdReplay(args []string) {
 	rem := fs.Int("rem", 0, "shard index: process script lines with lineno % mod == rem")
 	opf := fs.String("opfilter", "all", "keep scripts whose last call is in this family: all|mut|query|nbr|trans")
 	bits := fs.Int("bits", 32, "universe width: 32 | 64")
+	keepRcp := fs.Bool("keeprcp", false, "keep the build recipes given by the script")
 	fs.Parse(args)
 	loadStructures(*structs)
 	in, err := os.Open(*scripts)
@@ -250,7 +261,7 @@ func cmdReplay(args []string) {
 				if *bits == 64 && !op64[c.Op] {
 					continue
 				}
-				if c.Op == "Build" {
+				if c.Op == "Build" && !(*keepRcp && c.Rcp != "") {
 					if len(rl) > 0 {
 						c.Rcp = rl[r.Intn(len(rl))]
 					} else if c.Rcp == "" {
